@@ -70,6 +70,8 @@ def histories(tier):
     out += [["rebegin"], ["nobody", "rebegin"], ["nobody", "rebegin", "nobody"], ["set", "rebegin", "set"], ["rebegin", "rebegin", "nobody"]]
     # one run-steps request for two steps: the SAME settings object is logged for both steps
     out += [["steps2set"], ["nobody", "steps2set"], ["steps2set", "set"], ["steps2empty", "nobody"]]
+    # a session over TWO scenarios of the manager (marker "two" first)
+    out += [["two", "nobody", "nobody"], ["two", "nobody", "nobody", "nobody"], ["two", "set", "nobody"]]
     return out
 
 
@@ -79,7 +81,7 @@ def make_factory(start, dt):
         m = scen.base_model(start, float(Fraction(str(start)) + 8 * Fraction(str(dt))), dt, name="c19")
         b = BPTK_Py.bptk()
         b.register_scenario_manager({"sm": {"model": m}})
-        b.register_scenarios(scenario_manager="sm", scenarios={"A": {}})
+        b.register_scenarios(scenario_manager="sm", scenarios={"A": {}, "B": {"constants": {"k": 2.5, "c": 0.5}}})
         return b
     return factory
 
@@ -124,7 +126,10 @@ def run_case(spec, hist, compress, mode_whole, mode, env=None):
         c = app.test_client()
         post = lambda url, body=None: c.post(url, data=json.dumps(body), content_type="application/json") if body is not None else c.post(url)
         inst = json.loads(post("/start-instance", {"timeout": {"hours": 1}}).data)["instance_uuid"]
-        post("/%s/begin-session" % inst, {"scenario_managers": ["sm"], "scenarios": ["A"], "equations": scen.EQS})
+        two = bool(hist) and hist[0] == "two"
+        if two:
+            hist = hist[1:]
+        post("/%s/begin-session" % inst, {"scenario_managers": ["sm"], "scenarios": (["A", "B"] if two else ["A"]), "equations": scen.EQS})
         statuses = []
         for i, kind in enumerate(hist):
             if kind == "set":
@@ -173,7 +178,9 @@ def run_case(spec, hist, compress, mode_whole, mode, env=None):
         shutil.rmtree(d, ignore_errors=True)
 
 
-def compare(obs, pc, timeout_s, numeric=False):
+def compare(obs, pc, timeout_s, numeric=False, skip=()):
+    """first mismatch, or None.  skip: sections not to look at (a recorded finding in one section - the compressed
+    settings log - must not hide what is wrong in the sections after it)"""
     if any(s != 200 for s in obs["statuses"]):
         return "a request failed while an adapter is configured: statuses %s" % obs["statuses"], None
     if obs["after_state"] is None:
@@ -185,6 +192,8 @@ def compare(obs, pc, timeout_s, numeric=False):
     if float(b["step"]) != float(a["step"]):
         return "session clock is %r after the restore, was %r" % (a["step"], b["step"]), None
     for lg in ("settings_log", "results_log"):
+        if lg in skip:
+            continue
         lb, la = norm_log(b[lg]), norm_log(a[lg])
         r = deep_equal(lb, la, pc, timeout_s, numeric, lg)
         if r:
@@ -201,6 +210,8 @@ def compare(obs, pc, timeout_s, numeric=False):
             return r
     # the restored logs must also list their steps in time order (everything that iterates them relies on it)
     for lg in ("settings_log", "results_log"):
+        if lg in skip:
+            continue
         ks = [float(k) for k in a[lg].keys()]
         if ks != sorted(ks):
             return "%s: steps are stored in the order %s after the restore" % (lg, ks), None
@@ -278,6 +289,13 @@ def check_case(spec, hist, compress, whole, timeout_s):
                 return "unknown", r[0]
             info = dict(r[1] or {})
             info["_what"] = r[0]
+            if r[0].startswith("settings_log"):
+                # look past the settings log as well
+                r2 = compare(p.out[1], p.pc, timeout_s, skip=("settings_log",))
+                if r2 and not r2[0].startswith("UNKNOWN"):
+                    more = dict(r2[1] or {})
+                    more["_what"], more["_skip"] = r2[0], ["settings_log"]
+                    info["_more"] = more
             return "violated", info
     return "holds", None
 
@@ -290,7 +308,7 @@ def replay(case):
         obs = run_case(spec, hist, case["compress"], case["whole"], "float", case.get("env", {}))
     except Exception as e:
         return True, "start=%s dt=%s steps %s compress=%s: raised %r" % (spec[0], spec[1], hist, case["compress"], e)
-    r = compare(obs, (), 0, numeric=True)
+    r = compare(obs, (), 0, numeric=True, skip=tuple(case.get("skip", ())))
     return (r is not None), "start=%s dt=%s steps %s compress=%s whole-server=%s: %s" % (
         spec[0], spec[1], hist, case["compress"], case["whole"], r[0] if r else "state and results restored exactly")
 
@@ -306,6 +324,11 @@ def signature(spec, hist, compress, whole, what):
     for lg in ("settings_log", "results_log", "session-results", "flat-session-results"):
         if what.startswith(lg):
             kind = "keys" if "keys" in what else "value"
+            if kind == "keys":
+                import re
+                m = re.search(r"keys (\[.*?\]) before, (\[.*?\]) after", what)
+                if m and m.group(1).count(",") != m.group(2).count(","):
+                    kind = "key-count"          # steps lost or invented, not merely renumbered
             return "%s:%s:%s" % (mode, lg, kind)
     return "%s:other" % mode
 
@@ -386,13 +409,18 @@ def run(tier):
     finally:
         stubs.restore()
     seen = set()
-    for (spec, hist, compress, whole), info in bad:
+    flat_bad = []
+    for t, info in bad:
+        flat_bad.append((t, info, []))
+        if isinstance(info.get("_more"), dict):
+            flat_bad.append((t, info["_more"], info["_more"].get("_skip", [])))
+    for (spec, hist, compress, whole), info, skip in flat_bad:
         sig = signature(spec, hist, compress, whole, info.get("_what", ""))
         if sig in seen:
             continue
         seen.add(sig)
         env = {k: float(v) for k, v in info.items() if isinstance(v, (Fraction, int, float)) and not isinstance(v, bool)}
-        rep.candidate(sig, {"spec": list(spec), "hist": hist, "compress": compress, "whole": whole, "env": env},
+        rep.candidate(sig, {"spec": list(spec), "hist": hist, "compress": compress, "whole": whole, "env": env, "skip": skip},
                       "start=%s dt=%s steps %s compress=%s whole=%s: %s" % (spec[0], spec[1], hist, compress, whole, info.get("_what")))
     # ---- collect part 1
     res1 = [f.result() for f in futs]
